@@ -42,7 +42,7 @@ impl Method for CCI {
 
 	fn new(length: Self::Params, value: &Self::Input) -> Result<Self, Error> {
 		match length {
-			0 => Err(Error::WrongMethodParameters),
+			0 | PeriodType::MAX => Err(Error::WrongMethodParameters),
 			length => Ok(Self(MeanAbsDev::new(length, value)?)),
 		}
 	}
